@@ -79,6 +79,51 @@ def size_zero_array():
     return prog([inp("a", "a", ("arr", SI, 0))], [("o", "P0", "a")], ["size-0"])
 
 
+def helper_from_two_functions():
+    """h is never called from the program body, only from the bodies of f and g"""
+    h = {"k": "def", "f": "h", "params": [("e", SI)], "ret": SI,
+         "body": [{"k": "bin", "x": "s", "op": "OMul", "a": "e", "b": "e"}], "res": "s", "form": "decorator"}
+    f = {"k": "def", "f": "f", "params": [("p", SI)], "ret": SI,
+         "body": [{"k": "call", "x": "c", "f": "h", "args": ["p"], "kwargs": []}], "res": "c", "form": "decorator"}
+    g = {"k": "def", "f": "g", "params": [("p", SI)], "ret": SI,
+         "body": [{"k": "call", "x": "c", "f": "h", "args": ["p"], "kwargs": []},
+                  {"k": "bin", "x": "d", "op": "OAdd", "a": "c", "b": "p"}], "res": "d", "form": "decorator"}
+    return prog([h, f, g, inp("x", "x", SI), inp("a", "a", ("arr", SI, 2)),
+                 {"k": "call", "x": "r1", "f": "f", "args": ["x"], "kwargs": []},
+                 {"k": "map", "x": "r2", "a": "a", "f": "g"}],
+                [("o1", "P0", "r1"), ("o2", "P1", "r2")], ["helper-from-two-functions"])
+
+
+def same_value_two_types():
+    return prog([{"k": "lit", "x": "l1", "b": "Int", "v": 7}, {"k": "lit", "x": "l2", "b": "UInt", "v": 7},
+                 {"k": "lit", "x": "l3", "b": "Int", "v": 7}, inp("x", "x", SI), inp("u", "u", SU),
+                 {"k": "bin", "x": "a", "op": "OAdd", "a": "x", "b": "l1"}, {"k": "bin", "x": "b", "op": "OAdd", "a": "u", "b": "l2"},
+                 {"k": "bin", "x": "c", "op": "OMul", "a": "a", "b": "l3"}],
+                [("o1", "P0", "c"), ("o2", "P0", "b")], ["same-literal-two-types"])
+
+
+def map_zip_mixed():
+    """zip whose operands mix a map result (class-valued element type) with compound elements"""
+    f = {"k": "def", "f": "f", "params": [("e", SI)], "ret": SB,
+         "body": [{"k": "bin", "x": "s", "op": "OLt", "a": "e", "b": "e"}], "res": "s", "form": "decorator"}
+    return prog([inp("a", "a", ("arr", SI, 2)), inp("b", "b", ("arr", SU, 2)), inp("c", "c", ("arr", PB, 2)), f,
+                 {"k": "map", "x": "m", "a": "a", "f": "f"}, {"k": "zip", "x": "bc", "a": "b", "b": "c"},
+                 {"k": "zip", "x": "z1", "a": "m", "b": "bc"}, {"k": "zip", "x": "z2", "a": "a", "b": "m"},
+                 {"k": "zip", "x": "z3", "a": "bc", "b": "m"}],
+                [("o1", "P0", "z1"), ("o2", "P0", "z2"), ("o3", "P1", "z3")], ["map-zip"])
+
+
+def public_returning_function():
+    f = {"k": "def", "f": "pf", "params": [("e", PI)], "ret": PI,
+         "body": [{"k": "bin", "x": "s", "op": "OAdd", "a": "e", "b": "e"}], "res": "s", "form": "decorator"}
+    g2 = {"k": "def", "f": "pr", "params": [("acc", PI), ("e", PI)], "ret": PI,
+          "body": [{"k": "bin", "x": "s", "op": "OAdd", "a": "acc", "b": "e"}], "res": "s", "form": "decorator"}
+    return prog([inp("a", "a", ("arr", PI, 2)), inp("x", "x", PI), f, g2, {"k": "map", "x": "m", "a": "a", "f": "pf"},
+                 {"k": "reduce", "x": "r", "a": "m", "f": "pr", "init": "x"}, {"k": "call", "x": "c", "f": "pf", "args": ["x"], "kwargs": []}],
+                [("o1", "P0", "m"), ("o2", "P0", "r"), ("o3", "P1", "c")], ["public-function"])
+
+
 def all_families():
     return [nested_capture(), reduce_computed_initial(), shared_function_two_sites(), function_calls_function(),
-            compound_types(), array_param(), size_zero_array()]
+            compound_types(), array_param(), size_zero_array(), helper_from_two_functions(), same_value_two_types(),
+            map_zip_mixed(), public_returning_function()]
